@@ -294,6 +294,10 @@ def _r6_all_turns_counted(ctx):
     n = 0
     for cname in ("pylife.stress.rainflow.fourpoint:FourPointDetector", "pylife.stress.rainflow.threepoint:ThreePointDetector"):
         fi = prog.lookup_method(prog.cls(cname), "process")
+        if not any((call_name(c_) or "").endswith("point_loop") for c_ in calls_in(fi.node)) or \
+                not any(isinstance(c_.func, ast.Attribute) and c_.func.attr == "_new_turns" for c_ in calls_in(fi.node)):
+            from ..inline import inlined
+            fi = inlined(prog, fi, skip=("_new_turns", "_flush_new_turns", "_preserve_start"))
         cfg = CFG(fi.node)
         ks = [x for x in walk_function(fi.node) if isinstance(x, ast.Assign) and isinstance(x.value, ast.Call)
               and (call_name(x.value) or "").endswith("point_loop")]
